@@ -1375,14 +1375,16 @@ class TypedBytesFixed(TypedBytesBase):
 
 class TypedBytesTerminated(TypedBytesBase):
     def __init__(self, spec, terminators: Sequence[bytes], empty_is_none=False,
-                 check_trailing_bytes=True, lazy=False):
+                 check_trailing_bytes=True, lazy=False, none_writes_terminator=False):
         self._bytes_tmpl = BytesTerminated(terminators)
         self._empty_is_none = empty_is_none
+        self._none_writes_terminator = none_writes_terminator
         super().__init__(spec, empty_is_none, check_trailing_bytes, lazy=lazy)
 
     def serialize(self, val, writer: BufferWriter, ctx):
-        # Don't write a terminator at all if we got `None`
-        if val is None and self._empty_is_none:
+        # Don't write a terminator at all if we got `None`, unless something
+        # else already said that the (empty) value is present
+        if val is None and self._empty_is_none and not self._none_writes_terminator:
             return
         super().serialize(val, writer, ctx)
 
